@@ -83,9 +83,9 @@ func init() {
 		Level:     "exploration",
 		Technique: "ground-truth cell comparison on a chain whose every field value is distinct and non-zero, over all singles and pairs of selectable field names per indexing mode (exhaustive) and random larger sets, through ValidateFix and the full pipeline",
 		Rule: fmt.Sprintf("field universe = the 28 documented block-data names; per mode (tx without event, log with event, trace) the mode-compatible names; %d singles and pairs are ALL run, plus random larger sets by membership class; "+
-			"each run indexes a 4-block chain in which every field of every item has its own non-zero value and compares every stored cell with what the source reported. signature = (mode, field set or class set, plan); trivial = no row expected.", len(grid)),
+			"each run indexes a 4-block chain in which every field of every item has its own non-zero value and compares every stored cell with what the source reported. signature = (mode, field set or class set, plan); trivial = no row expected. Half of the runs put a backend that is 1–2 blocks behind in front of a few requests (null blocks, receipts, traces; no logs for the newest blocks). Trace columns are renamed like the others; half of the trace-mode runs carry reward traces.", len(grid)),
 		Assumptions: []string{
-			"log fields (log_idx, log_addr) are selectable only together with an event, trace fields only without one: other mixes dereference an absent item and are outside 'may select' Half of the runs put a backend that is 1–2 blocks behind in front of a few requests (null blocks, receipts, traces; no logs for the newest blocks).",
+			"log fields (log_idx, log_addr) are selectable only together with an event, trace fields only without one: other mixes dereference an absent item and are outside 'may select'",
 			"the configuration goes through ValidateFix, so automatically added identity fields are present as in production",
 		},
 		NCases:           func(tier string) int { return c14Shards + c14Random(tier) },
